@@ -364,4 +364,134 @@ def replay_leading_whitespace(a):
             "note": "; ".join(t["problem"] for t in tried if "problem" in t) or None}
 
 
-SITES = {"C10": [path_construction, extend_usize_wiring, data_file_text_wiring, mark_to_location], "C11": [path_construction]}
+def report_value_rendering(a):
+    """C10 (`every reported value is the value the document holds at the reported path`): the {path, value} pairs of all reports are
+    built by <&PathAwareValue as TryInto<(String, serde_json::Value)>>::try_into. For the scalar kinds that JSON has: the rendered value
+    is built from the value's OWN payload by the lossless constructor of its kind - Null -> Null, Bool(b) -> Bool(b), String(s) -> String(s),
+    Int(i) -> Number::from(i), Float(f) -> Number::from_f64(f) (an error when that is None) - with no arithmetic or cast in between."""
+    from mirflow import origin
+    PV = enum_variants(a.src, "rules/path_value.rs", "PathAwareValue")
+    ex = a.exec(r"(?:rules::)?path_value::<impl at guard/src/rules/path_value\.rs:\d+:\d+: \d+:\d+>::try_into",
+                {"self_path": lambda ex, av: ex.opq(), "try_into": m_result_opq, "format": lambda ex, av: ex.opq(), "from_f64": mirexec.m_option,
+                 "next": mirexec.m_iter_next, "iter": mirexec.m_new_iter, "into_iter": mirexec.m_new_iter, "with_capacity": lambda ex, av: ex.opq(),
+                 "new": lambda ex, av: ex.opq(), "to_string": lambda ex, av: ex.opq()},
+                log=("from", "from_f64", "fract", "trunc", "round", "floor", "ceil"), unroll=1, max_paths=4000,
+                first_arg_re=r"_1: &(?:rules::)?path_value::PathAwareValue")
+    a.fns.append("rules::path_value::<&PathAwareValue as TryInto<(String, serde_json::Value)>>::try_into")
+    me = ex.arg_env["_1"]
+    d = disc(ex, me)
+
+    def own(v, kind):
+        """v is the second component of the payload tuple of `kind` of the value being rendered"""
+        if v is None:
+            return False
+        if v[0] == "opaque":
+            o = origin(ex, v)
+            return same(o[0], me) and len(o[1]) >= 1 and o[1][-1] == ".1" and all(k in (f"as {kind}", ".0", ".1") or k.startswith("as ") for k in o[1])
+        for (b, k), val in ex.proj.items():
+            if val == v and k == ".1" and isinstance(b, int):
+                o = origin(ex, ("opaque", b))
+                return same(o[0], me)
+        return False
+    bad, n = [], 0
+    for p in ex.paths:
+        r = p.ret
+        if p.outcome != "return" or not r or r[0] != "enum":
+            bad.append(pc_term(p.pc))
+            continue
+        okv = r[3].get("Ok")
+        fr = [e for e in calls(p, "from") if "serde_json::Number" in (e[5] if len(e) > 5 else "")]
+        ff = calls(p, "from_f64")
+        arith = [e for e in p.events if e[0] == "call" and e[1] in ("fract", "trunc", "round", "floor", "ceil")]
+        val = okv[1][1] if okv is not None and okv[0] == "tuple" and len(okv[1]) == 2 else None
+        conds = []
+        # Null
+        conds.append(f"(=> (= {d} {PV.index('Null')}) {'true' if (val is not None and val[0] == 'variant' and val[2] == 'Null' and not fr and not ff) else 'false'})")
+        okb = val is not None and val[0] == "variant" and val[2] == "Bool" and own(val[3][0], "Bool") and not fr and not ff
+        conds.append(f"(=> (= {d} {PV.index('Bool')}) {'true' if okb else 'false'})")
+        oks = val is not None and val[0] == "variant" and val[2] == "String" and own(val[3][0], "String") and not fr and not ff
+        conds.append(f"(=> (= {d} {PV.index('String')}) {'true' if oks else 'false'})")
+        oki = (val is not None and val[0] == "variant" and val[2] == "Number" and len(fr) == 1 and not ff and not arith and same(val[3][0], fr[0][3])
+               and own(fr[0][2][0], "Int") and "From<i64>" in fr[0][5])
+        conds.append(f"(=> (= {d} {PV.index('Int')}) {'true' if oki else 'false'})")
+        if len(ff) == 1 and not fr and not arith and own(ff[0][2][0], "Float"):
+            some = ff[0][3][3].get("Some")
+            okf_some = val is not None and val[0] == "variant" and val[2] == "Number" and same(val[3][0], some)
+            okf = f"(ite (= {ff[0][3][2]} 1) {'true' if okf_some else 'false'} {'true' if okv is None else 'false'})"
+        else:
+            okf = "false"
+        conds.append(f"(=> (= {d} {PV.index('Float')}) {okf})")
+        n += 1
+        bad.append(f"(and {pc_term(p.pc)} (not (and {' '.join(conds)})))")
+    c = a.discharge("report/value-rendering/scalars-from-their-own-payload", ex, bad,
+                    f"the {{path, value}} pair of a reported value ({n} paths): Null -> null, Bool / String -> the payload itself, Int(i) -> Number::from(i), "
+                    "Float(f) -> Number::from_f64(f) or an error when JSON has no such number; no rounding, truncation or cast on the way "
+                    "(Regex / Char / ranges / the recursion into lists and maps are not examined)")
+    if c:
+        c["replay"] = replay_reported_values(a)
+        c["reproduced"] = c["replay"].get("reproduced", False)
+        a.candidates.append(c)
+
+
+def replay_reported_values(a):
+    """numbers of every size class as data values of failing clauses: every {path, value} pair of the JSON report resolves, in the
+    document, to that very value (compared as Python numbers / strings after json.loads of both)"""
+    import json as _json
+    exe = a.cli()
+    if not exe:
+        return {"reproduced": False, "note": "native build failed"}
+    doc = {"i": 7, "neg": -3, "big": 9007199254740993, "max": 9223372036854775807, "umax": 18446744073709551615, "over": 9223372036854775808,
+           "f": 2.5, "whole": 2.0, "e19": 1e19, "e300": 1e300, "tiny": 1e-7, "negf": -1.0e19, "s": "2", "b": True, "z": None,
+           "l": [1, 2.0, 1e19], "m": {"k": 18446744073709551615}}
+    data = _json.dumps(doc) + "\n"
+    out = []
+
+    def walk(o):
+        if isinstance(o, dict):
+            if set(o.keys()) >= {"path", "value"} and isinstance(o["path"], str):
+                yield o["path"], o["value"]
+            for v in o.values():
+                yield from walk(v)
+        elif isinstance(o, list):
+            for v in o:
+                yield from walk(v)
+
+    def resolve(path):
+        cur = doc
+        for seg in [x for x in path.split("/") if x]:
+            if isinstance(cur, list):
+                cur = cur[int(seg)]
+            else:
+                cur = cur[seg]
+        return cur
+    def eqv(w, v):
+        """equal as the loader reads the document: an integer beyond i64 is kept as the nearest f64 (documented under C11)"""
+        if isinstance(w, bool) or isinstance(v, bool) or w is None or v is None or isinstance(w, str) or isinstance(v, str):
+            return type(w) == type(v) and w == v
+        if isinstance(w, (int, float)) and isinstance(v, (int, float)):
+            return w == v or (isinstance(v, float) and not (-2**63 <= w < 2**63) and float(w) == v)
+        if isinstance(w, list) and isinstance(v, list):
+            return len(w) == len(v) and all(eqv(x, y) for x, y in zip(w, v))
+        if isinstance(w, dict) and isinstance(v, dict):
+            return set(w) == set(v) and all(eqv(w[k], v[k]) for k in w)
+        return False
+    npairs = 0
+    for key in doc:
+        rules = f"rule t {{\n  {key} == \"no such value\"\n}}\n" if key not in ("l", "m") else f"rule t {{\n  {key} == 0\n}}\n"
+        rc, rep, err = a.run_structured(exe, rules, [data])
+        if not (rep and isinstance(rep, list)):
+            continue
+        for path, value in walk(rep):
+            if not path:
+                continue
+            try:
+                want = resolve(path)
+            except Exception:
+                continue
+            npairs += 1
+            if not eqv(want, value):
+                out.append({"path": path, "document_has": repr(want), "report_says": repr(value)})
+    return {"reproduced": bool(out), "mismatches": out[:5], "pairs_checked": npairs}
+
+
+SITES = {"C10": [path_construction, extend_usize_wiring, data_file_text_wiring, mark_to_location, report_value_rendering], "C11": [path_construction]}
